@@ -108,4 +108,37 @@ Section Batch.
     - apply (rel_to_base k Hk Hthr Hthr2); [exact Hsp|apply aff_has_auto_min| |exact Hs].
       apply (tfun_fit_content_limited_growth_limit k Hk). exact Hi.
   Qed.
+
+  Lemma rel_m_step_minimums ax inner inner' avail avail' fp ot ot' oadj oadj' flex uff b b' ts ts' :
+    sz_rel O inner inner' -> gavail_rel k avail avail' -> tracks_rel k ot ot' -> L oadj oadj' -> Forall2 (gitem_rel k) b b' -> tracks_rel k ts ts' ->
+    ProgRel k VB (m_step_minimums ax inner avail fp ot oadj flex uff b ts) (m_step_minimums ax inner' avail' fp ot' oadj' flex uff b' ts').
+  Proof.
+    intros Hin Hav Hot Hadj Hb Hts. unfold m_step_minimums.
+    apply rel_step_shape; [|intros; apply rel_flush_planned_base; assumption|exact Hb|exact Hts].
+    intros s s' g g' Hs Hg. pose proof (rel_get_ax O _ _ ax Hin) as Hi.
+    assert (Ex : g_xintr g' = g_xintr g) by (gi_open Hg; assumption). rewrite Ex.
+    destruct (get_ax (g_xintr g) ax); [|constructor; split; assumption].
+    eapply pbind_rel.
+    - apply (rel_m_intrinsic_minimum_space k Hk); try eassumption.
+      intros h h' Hh. rewrite (view_rel k ax _ _ Hh). apply (rel_spanned_track_limit k Hk); assumption.
+    - intros [v g1] [v' g1'] [Hv Hg1]. cbn [fst snd] in Hv, Hg1. constructor. split; cbn [fst snd]; [|exact Hg1].
+      rewrite (view_rel k ax _ _ Hg1).
+      apply (rel_to_base k Hk Hthr Hthr2); [exact Hv|apply (aff_has_intrinsic_min k Hk); exact Hi| |exact Hs].
+      apply (rel_scroll_limit k Hk). exact Hi.
+  Qed.
+
+  Lemma rel_m_general_batch ax inner inner' avail avail' fp ot ot' oadj oadj' flex uff b b' ts ts' :
+    sz_rel O inner inner' -> gavail_rel k avail avail' -> tracks_rel k ot ot' -> L oadj oadj' -> Forall2 (gitem_rel k) b b' -> tracks_rel k ts ts' ->
+    ProgRel k VB (m_general_batch ax inner avail fp ot oadj flex uff b ts) (m_general_batch ax inner' avail' fp ot' oadj' flex uff b' ts').
+  Proof.
+    intros Hin Hav Hot Hadj Hb Hts. unfold m_general_batch.
+    eapply pbind_rel; [apply rel_m_step_minimums; eassumption|]. intros [t1 b1] [t1' b1'] [Ht1 Hb1]. cbn [fst snd] in Ht1, Hb1.
+    eapply pbind_rel; [apply rel_m_step_content_minimums; eassumption|]. intros [t2 b2] [t2' b2'] [Ht2 Hb2]. cbn [fst snd] in Ht2, Hb2.
+    eapply pbind_rel; [apply rel_m_step_max_content_minimums; eassumption|]. intros [t3 b3] [t3' b3'] [Ht3 Hb3]. cbn [fst snd] in Ht3, Hb3.
+    eapply pbind_rel; [apply rel_m_step_max_content_all; eassumption|]. intros [t4 b4] [t4' b4'] [Ht4 Hb4]. cbn [fst snd] in Ht4, Hb4.
+    pose proof (rel_fix_growth_limits k Hk _ _ Ht4) as Ht5. cbv zeta.
+    destruct flex; [constructor; split; assumption|].
+    eapply pbind_rel; [apply rel_m_step_intrinsic_maximums; eassumption|]. intros [t6 b6] [t6' b6'] [Ht6 Hb6]. cbn [fst snd] in Ht6, Hb6.
+    apply rel_m_step_max_content_maximums; assumption.
+  Qed.
 End Batch.
